@@ -156,7 +156,7 @@ def meta(tier):
                 'expressions around placeholders), as the only variant and as the second of two variants; invocations: every '
                 'combination of operand alternatives (literals, backward and forward labels, label expressions, registers); '
                 'oracle: image(program with macro) == image(program with the invocation replaced by the substituted steps), both '
-                'assembled by the real code; unfillable placeholders must be rejected; non-trivial = macro with >=2 steps or a '
+                'assembled by the real code; unfillable placeholders must be rejected; macro names defined in lower / upper / mixed case x invocations in lower / upper / defined spelling; non-trivial = macro with >=2 steps or a '
                 'forward reference; three invocations of one macro in one program whose operands differ in letter case or spacing only (7 operand pairs x 4 step lists); twin definitions: an instruction and a macro with the same sequence of 1..2 (thorough 3) variant layouts out of 8 '
                 '(no operands, an empty operand, operand sets, listed combinations, a listed combination with a trailing empty operand, both) x 7 '
                 'operand texts must match the same variant or both be rejected; states = distinct macro definitions',
@@ -187,6 +187,7 @@ def shard(acc, tier, idx, n):
     ctr = 0
     twins(acc, tier, idx, n)
     sequences(acc, tier, idx, n)
+    macro_name_case(acc, idx, n)
     for pname, (sets, alts) in PATTERNS.items():
         tpls = TEMPLATES[pname]
         invocations = list(itertools.product(*alts))
@@ -248,6 +249,30 @@ def shard(acc, tier, idx, n):
                 if m:
                     acc.violation([case], spec, f'{inv!r} with steps {steps}: {m}', [out])
                 acc.judge(clause='unfillable-rejected', nontrivial_key=(pname, bad, pos))
+
+
+def macro_name_case(acc, idx, n):
+    """Mnemonics are not case sensitive, those of macros included - however the definition spells the macro's name and however the
+    source spells the invocation, the bytes are those of the expansion."""
+    ctr = 0
+    for defined, written in itertools.product(('mac', 'MAC', 'Mac.w', 'mAc_2'), ('lower', 'upper', 'as defined')):
+        for steps, ops in ((['ldi @REG(0), @ARG(1)', 'nop'], (('a', None, 'a'), ('fwd', 'fwd', None))),
+                           (['push @OP(0)', 'n12 @ARG(1)+1'], (('b', None, 'b'), ('5', '5', None)))):
+            ctr += 1
+            if ctr % n != idx:
+                continue
+            isa = isa_with({defined: [{'operands': {'count': 2, 'operand_sets': {'list': ['reg', 'imm']}}, 'instructions': steps}]})
+            name = {'lower': defined.lower(), 'upper': defined.upper(), 'as defined': defined}[written]
+            inv = f'{name} ' + ', '.join(o[0] for o in ops)
+            expanded = [substitute(t, ops) for t in steps]
+            c1, c2 = Case(isa, program(inv)), Case(isa, program(expanded))
+            o1, o2 = acc.run(c1), acc.run(c2)
+            acc.transition(2)
+            spec = {'type': 'pair'}
+            m = judge_pair(spec, [o1, o2])
+            if m:
+                acc.violation([c1, c2], spec, f'macro defined as {defined!r}, invoked as {inv!r}: {m}', [o1, o2])
+            acc.judge(clause='expansion', nontrivial_key=('name-case', defined, written, tuple(steps)))
 
 
 # ---- same matching rules as an instruction: twin definitions -------------------------------------------------------------
